@@ -22,10 +22,16 @@ RULES = {
     "R05.3": "recv arms never discard a Message item; non-message items loop; Err items are reported",
     "R05.4": "multipart accumulator stays in the codec; decode never holds back a complete item (C02 R02.3, R02.2 stall)",
     "R05.5": "no ready event / wake-up is dropped (C06 R06.1, R06.2 re-evaluated): a delivered-once guarantee needs every ready peer to be polled",
+    "R05.F": "foundation clauses re-evaluated as necessary conditions: " + ", ".join(['decoder', 'identity']),
 }
 
 
+DEPENDS = ['decoder', 'identity']     # foundation groups re-evaluated as necessary conditions (rules/found.py)
+
+
 def run(ctx, f, rep):
+    from . import found
+    found.import_groups(ctx, f, rep, 'C05', DEPENDS)
     ipath, iadt, names = fq.inner_adt(f)
     if not ipath:
         rep.bad("R05.1", "R05.1|inner-anchor", "fair queue state struct not found (anchor-missing)")
